@@ -33,7 +33,7 @@ REAL = ['py4hw.simulation.Simulator._clk_cycle (enable test, per-driver clockAll
         'py4hw.logic.clock.GatedClock', 'sequential library blocks']
 STUB = ['stimulus']
 ASSUMPTIONS = ['reference models of dsim/catalog.py']
-PROBES = ['shared_driver_object', 'simulator_refetched_by_listener', 'edge_aborted_before_anything_was_clocked', 'refetched_through_constructor', 'caller_supplied_top_driver', 'regated_after_run', 'driver_on_block', 'top_driver_gated', 'enable_attached_late', 'disabled_edge', 'enabled_edge', 'self_gated', 'cross_domain_enable', 'wide_enable', 'nested_driver', 'gatedclock_idiom', 'single_cycle_stall', 'long_stall']
+PROBES = ['domain_far_below_its_driver', 'shared_driver_object', 'simulator_refetched_by_listener', 'edge_aborted_before_anything_was_clocked', 'refetched_through_constructor', 'caller_supplied_top_driver', 'regated_after_run', 'driver_on_block', 'top_driver_gated', 'enable_attached_late', 'disabled_edge', 'enabled_edge', 'self_gated', 'cross_domain_enable', 'wide_enable', 'nested_driver', 'gatedclock_idiom', 'single_cycle_stall', 'long_stall']
 
 
 def gen(rs, tier, index):
@@ -73,6 +73,9 @@ def gen(rs, tier, index):
         gd[g0] = dict(gd[g0], share=g0)
         gd[g1] = dict(gd[g0])
     d['group_driver'] = gd
+    if gd and rng.random() < 0.08:
+        # the blocks of one clock domain nested far below the block that carries the driver
+        netlist.deepen(d, rng, rng.choice([12, 15, 16, 17, 24, 33, 48]), under=rng.choice(sorted(gd)).split('/'))
     # drivers placed directly on blocks (structural library blocks and clockable leaves such as Reg)
     nd = {}
     for n2 in d['nodes']:
@@ -183,6 +186,8 @@ def run(scn, log, st):
             st.probe('nested_driver')
         if dv.get('share') is not None and g != dv['share']:
             st.probe('shared_driver_object')
+    if d.get('deepened'):
+        st.probe('domain_far_below_its_driver')
     b = netlist.Built(d).build(scn['order'])
     with quiet():
         sim = b.hw.getSimulator()
